@@ -1,5 +1,5 @@
 SPECIFICATION Spec
-CONSTANTS NCpu = 5
+CONSTANTS NCpu = 4
           MaxStr = 4
 INVARIANTS MachineRefines PrintsAreRead
 CHECK_DEADLOCK FALSE
